@@ -81,8 +81,9 @@ def tt_union_rows(MatrixA: np.ndarray, MatrixB: np.ndarray) -> np.ndarray:
     _, location = tt_ismember_rows(
         MatrixBUnique[np.argsort(idxB)], MatrixAUnique[np.argsort(idxA)]
     )
+    # location follows the first-appearance order of the unique rows of B
     union = np.vstack(
-        (MatrixB[np.sort(idxB[np.where(location < 0)])], MatrixA[np.sort(idxA)])
+        (MatrixB[np.sort(idxB)[np.where(location < 0)]], MatrixA[np.sort(idxA)])
     )
     return union
 
